@@ -106,11 +106,11 @@ def _split(anns):
     return pos, kw
 
 
-def make_handler(name, anns, ret=None):
+def make_handler(name, anns, ret=None, is_method=False):
     pos, kw = _split(anns)
     g = {f"T{k}": a for k, a in enumerate(pos)}
     g.update({f"K_{n_}": a for n_, a in kw})
-    params = [f"a{k}: T{k}" for k in range(len(pos))]
+    params = (["self"] if is_method else []) + [f"a{k}: T{k}" for k in range(len(pos))]
     if kw:
         params.append("*")
         params += [f"{n_}: K_{n_}" for n_, _ in kw]
@@ -208,6 +208,13 @@ def families(tier):
     fam.append(([[L(2, 1), L(5)], [L(3), int]], [(int, int)]))
     fam.append(([[L("a", "ab") & StartsWith["a"]]], [(str,)]))
     fam.append(([[Regexp["^a"] | Dependent[int, positive], L(5)], [str, L(6)]], [(str, int), (int, int)]))
+    # the same literal in two methods that are unordered through other positions: both conditions hold at once -> ambiguity
+    fam.append(([[L(1), int, object], [L(1), object, int]], [(int, int, int)]))
+    fam.append(([[L(1), int, object], [L(1), object, int], [L(2), int, int], [L(3), int, int]], [(int, int, int)]))
+    # methods (self): every path of the value dispatcher - handler call, fall through - passes the instance on
+    fam.append(([[StartsWith["a"]], [EndsWith["z"]]], [(str,)], "method"))
+    fam.append(([[L(1)], [L(2)], [L(3)], [L(4)]], [(int,)], "method"))
+    fam.append(([[Dependent[int, positive], KW("k", object)], [int, KW("k", object)]], [(int, KW("k", str))], "method"))
     if tier == "thorough":
         fam.append(([[L(i)] for i in range(1, 8)], [(int,)]))
         fam.append(([[L(0), L(1), L(2)], [L(1), L(0), int]], [(int, int, int)]))
@@ -218,15 +225,17 @@ def families(tier):
 def main():
     tier = sys.argv[1] if len(sys.argv) > 1 else "quick"
     instances = []
-    for fi, (handlers_ann, probes) in enumerate(families(tier)):
+    for fi, spec in enumerate(families(tier)):
+        handlers_ann, probes = spec[0], spec[1]
+        is_method = len(spec) > 2 and spec[2] == "method"
         ov = Ovld(name=f"fam{fi}")
         fns = []
         pos0, kw0 = _split(handlers_ann[0])
         npos = len(pos0)
         for hi, anns in enumerate(handlers_ann):
-            fns.append(make_handler(f"h{hi}", anns))
+            fns.append(make_handler(f"h{hi}", anns, is_method=is_method))
             ov.register(fns[-1])
-        ov.register(make_handler("base", [object] * npos + [KW(n_, object) for n_, _ in kw0]))
+        ov.register(make_handler("base", [object] * npos + [KW(n_, object) for n_, _ in kw0], is_method=is_method))
         try:
             ov.compile()
         except Exception as e:
@@ -257,6 +266,7 @@ def main():
                     annotations=[[repr(a) for a in anns] for anns in handlers_ann],
                     probe=[c.__name__ for c in probe],
                     kwnames=kwnames,
+                    is_method=is_method,
                     source=text,
                     globals=describe_globals(fn, registered),
                     declared=decl,
